@@ -38,7 +38,9 @@ type sched struct {
 	Disc    string   `json:"disconnect"` // none | leader@gated | follower@gated | leader@midbody | follower@yield
 	DiscWho int      `json:"disconnect_who"`
 	Evict   bool     `json:"evict_at_yield"`
-	Slow    int      `json:"slow_reader"` // client id of the slow reader, -1 none
+	Slow    int      `json:"slow_reader"`      // client id of the slow reader, -1 none
+	Mid     bool     `json:"arrival_mid_body"` // the last overlapping client arrives between the response head and the store
+	Late    int      `json:"late_arrivals"`    // further clients, one after the other, after everybody else is done
 	BodyLen int      `json:"body_len"`
 	script  []kind
 }
@@ -179,14 +181,40 @@ func (e *env) runSchedule(sd sched) *result {
 		po.mu.Lock()
 		res.Origin = append([]originReq{}, po.log...)
 		po.mu.Unlock()
-		for _, r := range res.Origin {
-			res.Answers = append(res.Answers, kindName[r.Kind])
-		}
 		// the callers' own upstream fetches, in the order the origin saw them
 		for _, r := range res.Origin {
 			if r.Serial >= 2 || sd.KS == "fresh" {
 				act(fmt.Sprintf("FollowerFallback %d %s", r.Client, kindCoq[r.Kind]))
 			}
+		}
+		// late arrivals: one client at a time, each run to completion. Nothing overlaps, so the
+		// first request the origin sees from such a client is its flight's, a second one its own fetch.
+		for i := 0; i < sd.Late && len(res.Notes) == 0; i++ {
+			id := sd.N + i
+			seenBefore := len(res.Origin)
+			c := e.startClient(path, id, false)
+			if !waitChan(c.done, clientWatchdog+time.Second) {
+				note("late client %d never finished", id)
+			}
+			res.Obs[id] = c.obs
+			po.mu.Lock()
+			res.Origin = append([]originReq{}, po.log...)
+			po.mu.Unlock()
+			mine := res.Origin[seenBefore:]
+			act(fmt.Sprintf("Arrive %d", id))
+			act("LeaderLookup")
+			if len(mine) >= 1 {
+				act("OriginAnswer " + kindCoq[mine[0].Kind])
+				act("LeaderStore")
+			}
+			act("FlightReturn")
+			for _, r := range mine[min(1, len(mine)):] {
+				act(fmt.Sprintf("FollowerFallback %d %s", r.Client, kindCoq[r.Kind]))
+			}
+			act(fmt.Sprintf("Respond %d", id))
+		}
+		for _, r := range res.Origin {
+			res.Answers = append(res.Answers, kindName[r.Kind])
 		}
 		res.Actions = res.actions
 		res.nClients = sd.N
@@ -229,12 +257,23 @@ func (e *env) runSchedule(sd sched) *result {
 	}
 	act("LeaderLookup")
 	// 2. followers, until every one of them is parked inside Do
-	for i := 1; i < sd.N; i++ {
+	gated := sd.N - 1
+	if sd.Mid {
+		gated = sd.N - 2
+	}
+	for i := 1; i <= gated; i++ {
 		clients[i] = e.startClient(path, i, sd.Slow == i)
 		act(fmt.Sprintf("Arrive %d", i))
 	}
-	if !waitFor(func() bool { return waitersInDo() == sd.N-1 }, 5*time.Second) {
-		note("followers did not all enter Do (%d of %d)", waitersInDo(), sd.N-1)
+	originReqs := func() int {
+		po.mu.Lock()
+		defer po.mu.Unlock()
+		return po.serial
+	}
+	// (a second origin request while the first is gated means the callers are not being coalesced:
+	// no point in waiting for them to park)
+	if !waitFor(func() bool { return waitersInDo() == gated || originReqs() > 1 }, 3*time.Second) || originReqs() > 1 {
+		note("followers did not all enter Do (%d of %d parked, %d origin requests)", waitersInDo(), gated, originReqs())
 		finishAll()
 		return res
 	}
@@ -250,6 +289,15 @@ func (e *env) runSchedule(sd sched) *result {
 	act("OriginAnswer " + kindCoq[firstKind])
 	if po.gateBody {
 		if waitChan(po.halfDone, 1500*time.Millisecond) {
+			if sd.Mid {
+				// one more client joins while the body is half sent
+				id := sd.N - 1
+				clients[id] = e.startClient(path, id, sd.Slow == id)
+				act(fmt.Sprintf("Arrive %d", id))
+				if !waitFor(func() bool { return waitersInDo() == sd.N-1 }, 5*time.Second) {
+					note("the mid-body arrival did not enter Do")
+				}
+			}
 			if sd.Disc == "leader@midbody" {
 				// the response head is on its way to (or already at) the proxy, half the body is unsent
 				time.Sleep(2 * time.Millisecond)
@@ -262,11 +310,6 @@ func (e *env) runSchedule(sd sched) *result {
 			note("origin never reached the middle of the body")
 		}
 		close(po.bodyRelease)
-	} else if sd.Disc == "leader@midbody" {
-		if !e.disconnect(path, clients[0]) {
-			note("server did not notice the disconnect of the leader")
-		}
-		act("Disconnect 0")
 	}
 	act("LeaderStore")
 	act("FlightReturn")
@@ -328,27 +371,50 @@ func catalogue(r *emit.Rand, tier string, backend string) []sched {
 		{"stale", "304"}, {"stale", "cacheable"}, {"stale", "no-store"}, {"stale", "404"}, {"stale", "abort-mid-body"},
 	}
 	discs := []string{"none", "leader@gated", "follower@gated", "leader@midbody", "follower@yield"}
-	tailKinds := []string{"cacheable", "no-store", "404"}
+	tailKinds := []string{"cacheable", "no-store", "404", "304"}
 	add := func(s sched) {
 		s.Backend = backend
 		s.script = kindsOf(s.Script)
-		s.Name = fmt.Sprintf("%s/N%d/%s/%s/%s/evict=%v/slow=%d", backend, s.N, s.KS, strings.Join(s.Script[:1], ""), s.Disc, s.Evict, s.Slow)
+		s.Name = fmt.Sprintf("%s/N%d/%s/%s/%s/evict=%v/slow=%d/mid=%v/late=%d", backend, s.N, s.KS, strings.Join(s.Script[:1], ""), s.Disc, s.Evict, s.Slow, s.Mid, s.Late)
 		out = append(out, s)
 	}
 	for _, n := range ns {
 		for _, cb := range combos {
+			if backend == "file" && cb.first == "abort-mid-body" {
+				// a failed overwrite on the file backend currently also destroys the old entry
+				// (defects of C12/C01, repaired there); what a cut body does to the store is not C05's subject
+				continue
+			}
+			bodyGated := cb.first == "cacheable" || cb.first == "abort-mid-body"
 			for _, d := range discs {
+				if d == "leader@midbody" && !bodyGated {
+					// the proxy does not read the body of an answer it will not store: the flight is
+					// over as soon as the head is in, there is no such point to force
+					continue
+				}
 				for _, ev := range []bool{false, true} {
-					// answers to the callers' own fetches (requests 2, 3, ...): seed-dependent
+					mid := bodyGated && n >= 3 && r.Chance(35)
+					late := 0
+					if r.Chance(40) {
+						late = 1 + r.Intn(2)
+					}
+					// answers to the callers' own fetches and to late flights (requests 2, 3, ...): seed-dependent
 					script := []string{cb.first}
-					for i := 0; i < n+1; i++ {
+					for i := 0; i < n+1+2*late; i++ {
 						script = append(script, emit.Pick(r, tailKinds))
 					}
 					who := 0
-					if strings.HasPrefix(d, "follower") {
+					switch d {
+					case "follower@gated":
+						g := n - 1
+						if mid {
+							g = n - 2
+						}
+						who = 1 + r.Intn(g)
+					case "follower@yield":
 						who = 1 + r.Intn(n-1)
 					}
-					add(sched{N: n, KS: cb.ks, Script: script, Disc: d, DiscWho: who, Evict: ev, Slow: -1, BodyLen: 40 + r.Intn(3000)})
+					add(sched{N: n, KS: cb.ks, Script: script, Disc: d, DiscWho: who, Evict: ev, Slow: -1, Mid: mid, Late: late, BodyLen: 40 + r.Intn(3000)})
 				}
 			}
 			// a slow reader (a follower, or the leader) among otherwise undisturbed clients
@@ -359,7 +425,7 @@ func catalogue(r *emit.Rand, tier string, backend string) []sched {
 			}
 			bl := 40 + r.Intn(3000)
 			if cb.first == "cacheable" || cb.first == "304" {
-				bl = 3<<20 + r.Intn(1<<20) // larger than the socket buffers: the proxy's write to the slow reader blocks
+				bl = 10<<20 + r.Intn(1<<20) // larger than the socket buffers: the proxy's write to the slow reader blocks
 			}
 			if n == 20 {
 				bl = 40 + r.Intn(3000)
@@ -367,7 +433,7 @@ func catalogue(r *emit.Rand, tier string, backend string) []sched {
 			add(sched{N: n, KS: cb.ks, Script: script, Disc: "none", Evict: false, Slow: slow, BodyLen: bl})
 		}
 		add(sched{N: n, KS: "fresh", Script: []string{"cacheable"}, Disc: "none", Slow: -1, BodyLen: 40 + r.Intn(3000)})
-		add(sched{N: n, KS: "fresh", Script: []string{"cacheable"}, Disc: "none", Slow: r.Intn(n), BodyLen: 3 << 20})
+		add(sched{N: n, KS: "fresh", Script: []string{"cacheable"}, Disc: "none", Slow: r.Intn(n), BodyLen: 10 << 20})
 	}
 	return out
 }
@@ -428,7 +494,7 @@ func main() {
 	}
 	r := emit.NewRand(*flagSeed)
 	meta := emit.NewMeta("coalesce/C05", *flagSeed, *flagTier)
-	meta.Rule = "forced schedules (N, key state, first origin answer, who disconnects and when, eviction at fetch.afterDo, slow reader); answers to the callers' own fetches, body sizes, the disconnecting follower and the slow reader drawn from the seed; distinct by schedule tuple; non-trivial = at least two clients overlap in one flight (every cold/stale schedule)"
+	meta.Rule = "forced schedules (N, key state, first origin answer, who disconnects and when, eviction at fetch.afterDo, slow reader, an arrival between response head and store, late arrivals after the flight); answers to the callers' own fetches, body sizes, the disconnecting follower and the slow reader drawn from the seed; distinct by schedule tuple; non-trivial = at least two clients overlap in one flight (every cold/stale schedule)"
 	w := &emit.Writer{Dir: *flagOut, Prefix: "coal", ShardSize: 100,
 		Imports:  "From Reservoir Require Import Base.Prelude Model.Coalesce Check.Coalesce.",
 		CaseType: "coal_case", CheckFn: "check_coalesce"}
@@ -438,11 +504,24 @@ func main() {
 		backends = []string{"memory", "file"}
 	}
 	t0 := time.Now()
-	stuck := 0
+	stuck, skipped := 0, 0
+	const maxStuck = 25
 	for _, be := range backends {
 		e := newEnv(be)
-		for _, sd := range catalogue(r, *flagTier, be) {
+		cat := catalogue(r, *flagTier, be)
+		if *flagTier == "thorough" {
+			for rep := 0; rep < 2; rep++ { // further draws of the seed-dependent choices
+				cat = append(cat, catalogue(r, *flagTier, be)...)
+			}
+		}
+		for _, sd := range cat {
 			if *flagOnly != "" && !strings.Contains(sd.Name, *flagOnly) {
+				continue
+			}
+			if stuck >= maxStuck {
+				// the implementation no longer follows the forced schedules at all; what has been
+				// recorded so far is evaluated, the rest of the catalogue would only burn watchdog time
+				skipped++
 				continue
 			}
 			res := e.runSchedule(sd)
@@ -456,9 +535,11 @@ func main() {
 			meta.Count("disconnect", sd.Disc)
 			meta.Count("evict_at_yield", fmt.Sprint(sd.Evict))
 			meta.Count("slow_reader", fmt.Sprint(sd.Slow >= 0))
+			meta.Count("arrival_mid_body", fmt.Sprint(sd.Mid))
+			meta.Count("late_arrivals", fmt.Sprint(sd.Late))
 			meta.Count("backend", be)
 			meta.Count("origin_requests", fmt.Sprint(len(res.Origin)))
-			meta.Record(sd.Name, sd.KS != "fresh", res)
+			meta.Record(fmt.Sprintf("%s|%v|%d|%d", sd.Name, sd.Script, sd.DiscWho, sd.BodyLen), sd.KS != "fresh", res)
 			if *flagV {
 				b, _ := json.Marshal(res)
 				fmt.Println(string(b))
@@ -468,5 +549,5 @@ func main() {
 	}
 	w.Flush()
 	meta.Write(*flagOut, w.Files)
-	fmt.Printf("coalesce/C05: %d schedules in %d files, %d with harness notes, %.1fs\n", w.Total, len(w.Files), stuck, time.Since(t0).Seconds())
+	fmt.Printf("coalesce/C05: %d schedules in %d files, %d with harness notes, %d skipped, %.1fs\n", w.Total, len(w.Files), stuck, skipped, time.Since(t0).Seconds())
 }
